@@ -26,6 +26,21 @@ CLAIMED = {
               '47 (specifier, representation) pairs are listed known findings'),
         technique='CBMC bounded model checking of dt_dconv/dt_strfd per (format, representation, year window)',
         design='3/C02'),
+    'C03': dict(
+        text=('Bounded model checking of dt_dadd_d/dt_dadd_w/dt_dadd and the per-calendar carry kernels: '
+              'start day symbolic per year window, signed count symbolic; the day number of the result '
+              '(computed by the reference from its fields) equals start + n (7n). Loop calendars: |n| <= 62 d '
+              '(ymd, ymcw) / 400 d (yd, ywd) with unwinding assertions; day-number calendars: every n.'),
+        note='reference h/ref.h; counts beyond the carry-loop bounds outside the claim; bizda in C07',
+        technique='CBMC bounded model checking of the add kernels against day-number arithmetic',
+        design='3/C03'),
+    'C04': dict(
+        text=('Bounded model checking of dt_dadd_m/_y, dt_dadd(DURMO/DURQU/DURYR) and dt_dfixup for ymd, ymcw, '
+              'ywd, yd: result equals the reference month arithmetic with ultimo/count/week clamp; '
+              'composition +a then +b == +(a+b) on the lazily clamped values.'),
+        note='reference h/ref.h; |n| <= 48 months (unwinding assertion), years unbounded inside the range',
+        technique='CBMC bounded model checking of month/year add + fixup against reference month arithmetic',
+        design='3/C04'),
 }
 
 NA = {}
